@@ -7,7 +7,7 @@ import XpmVerif.Proofs.SealedIdent
     * `Reord v v'` — `v'` is `v` with the items of its dicts (at any depth) inserted in another order;
     * `DistinctKeys v` — every dict at every depth has pairwise distinct keys and as many keys as values
       (always true of a Python dict);
-    * `encVal_reord`, `pyEq_reord`/`removeMeta_reord` (the default comparison), `included_reord`,
+    * `encVal_reord`, `pyEq_reord`/`isDefault_reord`/`removeMeta_reord` (the default comparison), `included_reord`,
       `argStream_reord`, `nodeStream_reord`;
     * `NodeReord`, `GraphReord`; `GraphReord.rawId_eq`;
     * the walk: `GraphReord.edge_iff`, `mem_reachable_iff`, `GraphReord.collectPreTasks_perm`,
@@ -315,43 +315,6 @@ theorem pyEqKV_reord : ∀ (ka : List (List Nat)) (va : List Val) (kb : List (Li
     · rw [h1, h2]; exact pyEq_reord_aux v w w' hr hdk
 end
 
-/-! ### public forms -/
-
-/-- **any depth**: reordering dicts at every depth of a value does not change its encoding. -/
-theorem encVal_reord (cfg : Nat → List Nat) (mt : Nat → Option Bool) {v v' : Val} (h : Reord v v')
-    (hd : DistinctKeys v) : encVal cfg mt v = encVal cfg mt v' := encVal_reord_aux cfg mt v v' h hd
-
-theorem Reord.distinctKeys {v v' : Val} (h : Reord v v') (hd : DistinctKeys v) : DistinctKeys v' :=
-  Reord.distinctKeys_aux v v' h hd
-
-theorem Reord.mem_valRefs {m : Nat} {v v' : Val} (h : Reord v v') : m ∈ Sealing.valRefs v ↔ m ∈ Sealing.valRefs v' :=
-  Reord.mem_valRefs_aux m v v' h
-
-theorem pyEq_reord (d : Val) {w w' : Val} (h : Reord w w') (hd : DistinctKeys w) : pyEq d w = pyEq d w' :=
-  pyEq_reord_aux d w w' h hd
-
-theorem Reord.refl : ∀ v : Val, DistinctKeys v → Reord v v := by
-  intro v
-  induction v using Val.rec (motive_2 := fun l => DistinctKeysL l → Pointwise Reord l l) with
-  | none => exact fun _ => .none
-  | bool b => exact fun _ => .bool b
-  | int i => exact fun _ => .int i
-  | float b => exact fun _ => .float b
-  | str s => exact fun _ => .str s
-  | enum s => exact fun _ => .enum s
-  | path s => exact fun _ => .path s
-  | ref n => exact fun _ => .ref n
-  | list l ih => exact fun hd => .list (ih (by simpa only [DistinctKeys] using hd))
-  | dict ks vs ih =>
-    intro hd
-    simp only [DistinctKeys] at hd
-    exact .dict (ih hd.2.2) (Perm.refl _) hd.2.1 hd.2.1
-  | nil => exact .nil
-  | cons v vs ih1 ih2 =>
-    rename_i hd
-    simp only [DistinctKeysL] at hd
-    exact .cons (ih1 hd.1) (ih2 hd.2)
-
 /-! ### `remove_meta` commutes with the reordering -/
 
 theorem Pointwise.filter_reord (mt : Nat → Option Bool) {l l' : List Val} (h : Pointwise Reord l l') :
@@ -413,6 +376,124 @@ theorem removeMeta_distinctKeys (mt : Nat → Option Bool) {v : Val} (hd : Disti
       exact hd.2.2 _ (of_mem_zip (a := kv.1) (b := kv.2) (mem_filter.1 hkv).1).2
   | _ => exact hd
 
+/-! ### `_is_default` is insensitive to the reordering of the value -/
+
+theorem sameKeys_perm (ka : List (List Nat)) {kb kb' : List (List Nat)} (h : kb ~ kb') :
+    sameKeys ka kb = sameKeys ka kb' := by
+  have hc : ∀ k, kb.contains k = kb'.contains k := fun k => by
+    rw [Bool.eq_iff_iff]; simp [h.mem_iff]
+  have ha : kb.all (fun k => ka.contains k) = kb'.all (fun k => ka.contains k) := by
+    rw [Bool.eq_iff_iff]; simp only [all_eq_true]
+    exact ⟨fun H x hx => H x (h.mem_iff.2 hx), fun H x hx => H x (h.mem_iff.1 hx)⟩
+  have hn : decide kb.Nodup = decide kb'.Nodup := by
+    rw [Bool.eq_iff_iff]; simp [h.nodup_iff]
+  unfold sameKeys
+  simp only [hc, ha, hn, h.length_eq]
+
+mutual
+theorem isDefault_reord_aux (ceq : Nat → Nat → Bool) (mt : Nat → Option Bool) :
+    ∀ (d w w' : Val), Reord w w' → DistinctKeys w → isDefault ceq mt d w = isDefault ceq mt d w'
+  | .ref _, _, _, h, _ => by cases h <;> rfl
+  | .list a, _, _, h, hd => by
+    cases h with
+    | list hl =>
+      simp only [isDefault]
+      refine isDefaultL_reord ceq mt a _ _ (hl.filter_reord mt) ?_
+      have := removeMeta_distinctKeys mt hd
+      simpa only [removeMeta, DistinctKeys] using this
+    | dict _ _ _ _ => simp [isDefault]
+    | _ => rfl
+  | .dict ka va, _, _, h, hd => by
+    cases h with
+    | list _ => simp [isDefault]
+    | @dict kb kb' vb vb' mid hl hp h1 h2 =>
+      have hr : Reord (removeMeta mt (.dict kb vb)) (removeMeta mt (.dict kb' vb')) :=
+        removeMeta_reord mt (.dict hl hp h1 h2)
+      have hdk : DistinctKeys (removeMeta mt (.dict kb vb)) := removeMeta_distinctKeys mt hd
+      simp only [removeMeta] at hr hdk
+      simp only [isDefault]
+      have hperm : ((kb.zip vb).filter (fun kv => !dropped mt kv.2)).map (·.1)
+          ~ ((kb'.zip vb').filter (fun kv => !dropped mt kv.2)).map (·.1) := by
+        cases hr with
+        | @dict _ _ _ _ mid' hl' hp' h1' h2' =>
+          exact (zip_perm_unzip (by rw [h1', hl'.length_eq]) h2' hp').1
+      rw [sameKeys_perm ka hperm, isDefaultKV_reord ceq mt ka va _ _ _ _ (lookupKV_reord_dict hr hdk)]
+    | _ => rfl
+  | .none, w, w', h, hd => by simp only [isDefault]; exact pyEq_reord_aux _ w w' h hd
+  | .bool _, w, w', h, hd => by simp only [isDefault]; exact pyEq_reord_aux _ w w' h hd
+  | .int _, w, w', h, hd => by simp only [isDefault]; exact pyEq_reord_aux _ w w' h hd
+  | .float _, w, w', h, hd => by simp only [isDefault]; exact pyEq_reord_aux _ w w' h hd
+  | .str _, w, w', h, hd => by simp only [isDefault]; exact pyEq_reord_aux _ w w' h hd
+  | .enum _, w, w', h, hd => by simp only [isDefault]; exact pyEq_reord_aux _ w w' h hd
+  | .path _, w, w', h, hd => by simp only [isDefault]; exact pyEq_reord_aux _ w w' h hd
+theorem isDefaultL_reord (ceq : Nat → Nat → Bool) (mt : Nat → Option Bool) :
+    ∀ (a b b' : List Val), Pointwise Reord b b' → DistinctKeysL b → isDefaultL ceq mt a b = isDefaultL ceq mt a b'
+  | [], _, _, h, _ => by cases h <;> rfl
+  | x :: xs, _, _, h, hd => by
+    cases h with
+    | nil => rfl
+    | cons hv hl =>
+      simp only [DistinctKeysL] at hd
+      simp only [isDefaultL]
+      rw [isDefault_reord_aux ceq mt x _ _ hv hd.1, isDefaultL_reord ceq mt xs _ _ hl hd.2]
+theorem isDefaultKV_reord (ceq : Nat → Nat → Bool) (mt : Nat → Option Bool) :
+    ∀ (ka : List (List Nat)) (va : List Val) (kb : List (List Nat)) (vb : List Val)
+    (kb' : List (List Nat)) (vb' : List Val),
+    (∀ k, OptReord (lookupKV k kb vb) (lookupKV k kb' vb')) →
+      isDefaultKV ceq mt ka va kb vb = isDefaultKV ceq mt ka va kb' vb'
+  | [], [], _, _, _, _, _ => by simp [isDefaultKV]
+  | [], _ :: _, _, _, _, _, _ => by simp [isDefaultKV]
+  | _ :: _, [], _, _, _, _, _ => by simp [isDefaultKV]
+  | k :: ks, v :: vs, kb, vb, kb', vb', H => by
+    simp only [isDefaultKV]
+    rw [isDefaultKV_reord ceq mt ks vs kb vb kb' vb' H]
+    congr 1
+    rcases H k with ⟨h1, h2⟩ | ⟨w, w', h1, h2, hr, hdk⟩
+    · rw [h1, h2]
+    · rw [h1, h2]; exact isDefault_reord_aux ceq mt v w w' hr hdk
+end
+
+/-! ### public forms -/
+
+/-- **any depth**: reordering dicts at every depth of a value does not change its encoding. -/
+theorem encVal_reord (cfg : Nat → List Nat) (mt : Nat → Option Bool) {v v' : Val} (h : Reord v v')
+    (hd : DistinctKeys v) : encVal cfg mt v = encVal cfg mt v' := encVal_reord_aux cfg mt v v' h hd
+
+theorem Reord.distinctKeys {v v' : Val} (h : Reord v v') (hd : DistinctKeys v) : DistinctKeys v' :=
+  Reord.distinctKeys_aux v v' h hd
+
+theorem Reord.mem_valRefs {m : Nat} {v v' : Val} (h : Reord v v') : m ∈ Sealing.valRefs v ↔ m ∈ Sealing.valRefs v' :=
+  Reord.mem_valRefs_aux m v v' h
+
+theorem pyEq_reord (d : Val) {w w' : Val} (h : Reord w w') (hd : DistinctKeys w) : pyEq d w = pyEq d w' :=
+  pyEq_reord_aux d w w' h hd
+
+theorem isDefault_reord (ceq : Nat → Nat → Bool) (mt : Nat → Option Bool) (d : Val) {w w' : Val} (h : Reord w w')
+    (hd : DistinctKeys w) : isDefault ceq mt d w = isDefault ceq mt d w' :=
+  isDefault_reord_aux ceq mt d w w' h hd
+
+theorem Reord.refl : ∀ v : Val, DistinctKeys v → Reord v v := by
+  intro v
+  induction v using Val.rec (motive_2 := fun l => DistinctKeysL l → Pointwise Reord l l) with
+  | none => exact fun _ => .none
+  | bool b => exact fun _ => .bool b
+  | int i => exact fun _ => .int i
+  | float b => exact fun _ => .float b
+  | str s => exact fun _ => .str s
+  | enum s => exact fun _ => .enum s
+  | path s => exact fun _ => .path s
+  | ref n => exact fun _ => .ref n
+  | list l ih => exact fun hd => .list (ih (by simpa only [DistinctKeys] using hd))
+  | dict ks vs ih =>
+    intro hd
+    simp only [DistinctKeys] at hd
+    exact .dict (ih hd.2.2) (Perm.refl _) hd.2.1 hd.2.1
+  | nil => exact .nil
+  | cons v vs ih1 ih2 =>
+    rename_i hd
+    simp only [DistinctKeysL] at hd
+    exact .cons (ih1 hd.1) (ih2 hd.2)
+
 /-! ### arguments, nodes, graphs -/
 
 /-- same declaration (name, flags, default), values equal up to dict reordering at any depth. -/
@@ -425,10 +506,10 @@ structure ArgReord (a a' : Arg) : Prop where
   default : a.default = a'.default
   value : Reord a.value a'.value
 
-theorem included_reord (mt : Nat → Option Bool) {a a' : Arg} (h : ArgReord a a') (hd : DistinctKeys a.value) :
-    included mt a = included mt a' := by
-  have hpy : ∀ d, pyEq d (removeMeta mt a.value) = pyEq d (removeMeta mt a'.value) :=
-    fun d => pyEq_reord d (removeMeta_reord mt h.value) (removeMeta_distinctKeys mt hd)
+theorem included_reord (ceq : Nat → Nat → Bool) (mt : Nat → Option Bool) {a a' : Arg} (h : ArgReord a a')
+    (hd : DistinctKeys a.value) : included ceq mt a = included ceq mt a' := by
+  have hpy : ∀ d, isDefault ceq mt d (removeMeta mt a.value) = isDefault ceq mt d (removeMeta mt a'.value) :=
+    fun d => isDefault_reord ceq mt d (removeMeta_reord mt h.value) (removeMeta_distinctKeys mt hd)
   cases a with
   | mk n i g c r d v =>
   cases a' with
@@ -436,7 +517,7 @@ theorem included_reord (mt : Nat → Option Bool) {a a' : Arg} (h : ArgReord a a
   obtain ⟨h1, h2, h3, h4, h5, h6, hv⟩ := h
   simp only at h1 h2 h3 h4 h5 h6 hv hpy
   subst h1 h2 h3 h4 h5 h6
-  unfold included
+  unfold included ignoredOut defaultOut metaOut
   simp only []
   cases d with
   | none => cases hv <;> rfl
@@ -444,10 +525,10 @@ theorem included_reord (mt : Nat → Option Bool) {a a' : Arg} (h : ArgReord a a
     have := hpy d
     cases hv <;> first | rfl | (simp only []; rw [this])
 
-theorem argStream_reord (cfg : Nat → List Nat) (mt : Nat → Option Bool) {a a' : Arg} (h : ArgReord a a')
-    (hd : DistinctKeys a.value) : argStream cfg mt a = argStream cfg mt a' := by
+theorem argStream_reord (cfg : Nat → List Nat) (ceq : Nat → Nat → Bool) (mt : Nat → Option Bool) {a a' : Arg}
+    (h : ArgReord a a') (hd : DistinctKeys a.value) : argStream cfg ceq mt a = argStream cfg ceq mt a' := by
   unfold argStream
-  rw [included_reord mt h hd, encVal_reord cfg mt h.value hd, h.name]
+  rw [included_reord ceq mt h hd, encVal_reord cfg mt h.value hd, h.name]
 
 /-- `nd'` is `nd` with its arguments stored in another order and the dicts inside the argument values
     (at any depth) built in another insertion order; everything else is equal (`sealed` is irrelevant). -/
@@ -463,12 +544,12 @@ structure NodeReord (nd nd' : Node) : Prop where
 /-- every dict occurring in an argument value of the node has distinct keys. -/
 def NodeDistinctKeys (nd : Node) : Prop := ∀ a ∈ nd.args, DistinctKeys a.value
 
-theorem Pointwise.argsRel (cfg : Nat → List Nat) (mt : Nat → Option Bool) {l l' : List Arg}
-    (h : Pointwise ArgReord l l') (hd : ∀ a ∈ l, DistinctKeys a.value) : ArgsRel cfg mt mt l l' := by
+theorem Pointwise.argsRel (cfg : Nat → List Nat) (ceq : Nat → Nat → Bool) (mt : Nat → Option Bool) {l l' : List Arg}
+    (h : Pointwise ArgReord l l') (hd : ∀ a ∈ l, DistinctKeys a.value) : ArgsRel cfg ceq mt mt l l' := by
   induction h with
   | nil => exact .nil
   | cons hab _ ih =>
-    exact .cons hab.name (argStream_reord cfg mt hab (hd _ mem_cons_self)) (ih (fun a ha => hd a (mem_cons_of_mem _ ha)))
+    exact .cons hab.name (argStream_reord cfg ceq mt hab (hd _ mem_cons_self)) (ih (fun a ha => hd a (mem_cons_of_mem _ ha)))
 
 theorem Pointwise.map_name {l l' : List Arg} (h : Pointwise ArgReord l l') : l.map (·.name) = l'.map (·.name) := by
   induction h with
@@ -487,14 +568,14 @@ theorem name_inj_of_nodup : ∀ {l : List Arg}, (l.map (·.name)).Nodup →
     · exact name_inj_of_nodup hn.2 a b ha1 hb1 hab
 
 /-- **node level**: arguments permuted and dicts reordered at every depth ⇒ same hashed stream. -/
-theorem nodeStream_reord (cfg : Nat → List Nat) (mt : Nat → Option Bool) (self : Nat) {nd nd' : Node}
-    (h : NodeReord nd nd') (hd : NodeDistinctKeys nd) :
-    nodeStream cfg mt self nd = nodeStream cfg mt self nd' := by
+theorem nodeStream_reord (cfg : Nat → List Nat) (ceq : Nat → Nat → Bool) (mt : Nat → Option Bool) (self : Nat)
+    {nd nd' : Node} (h : NodeReord nd nd') (hd : NodeDistinctKeys nd) :
+    nodeStream cfg ceq mt self nd = nodeStream cfg ceq mt self nd' := by
   obtain ⟨mid, hpw, hperm⟩ := h.args
-  have e1 : nodeStream cfg mt self nd = nodeStream cfg mt self { nd with args := mid } :=
-    nodeStream_congr_args cfg mt mt self nd { nd with args := mid } rfl rfl (hpw.argsRel cfg mt hd)
+  have e1 : nodeStream cfg ceq mt self nd = nodeStream cfg ceq mt self { nd with args := mid } :=
+    nodeStream_congr_args cfg ceq mt mt self nd { nd with args := mid } rfl rfl (hpw.argsRel cfg ceq mt hd)
   rw [e1]
-  refine nodeStream_args_perm cfg mt self { nd with args := mid } nd' h.typeId h.task hperm ?_
+  refine nodeStream_args_perm cfg ceq mt self { nd with args := mid } nd' h.typeId h.task hperm ?_
   have hn : (mid.map (·.name)).Nodup := by rw [← hpw.map_name]; exact h.names
   exact name_inj_of_nodup hn
 
@@ -518,16 +599,16 @@ theorem GraphReord.mt_eq {g g' : Graph} (h : GraphReord g g') : g.mt = g'.mt := 
   · rw [h.node_eq_of_le (Nat.le_of_not_lt hn)]
 
 theorem GraphReord.nodeStream_eq {g g' : Graph} (h : GraphReord g g') (hd : GraphDistinctKeys g)
-    (n : Nat) (cfg : Nat → List Nat) :
-    nodeStream cfg g.mt n (g.node n) = nodeStream cfg g'.mt n (g'.node n) := by
+    (n : Nat) (cfg : Nat → List Nat) (ceq : Nat → Nat → Bool) :
+    nodeStream cfg ceq g.mt n (g.node n) = nodeStream cfg ceq g'.mt n (g'.node n) := by
   rw [← h.mt_eq]
   by_cases hn : n < g.size
-  · exact nodeStream_reord cfg g.mt n (h.node n hn) (hd n hn)
+  · exact nodeStream_reord cfg ceq g.mt n (h.node n hn) (hd n hn)
   · rw [h.node_eq_of_le (Nat.le_of_not_lt hn)]
 
 theorem GraphReord.rawAt_eq {D : Type} (hc : HC D) {g g' : Graph} (h : GraphReord g g') (hd : GraphDistinctKeys g)
     (fuel : Nat) (stack : List Nat) (n : Nat) : rawAt hc g fuel stack n = rawAt hc g' fuel stack n :=
-  rawAt_congr hc g g' (fun n cfg => h.nodeStream_eq hd n cfg) fuel stack n
+  rawAt_congr hc g g' (fun n cfg ceq => h.nodeStream_eq hd n cfg ceq) fuel stack n
 
 theorem GraphReord.rawId_eq {D : Type} (hc : HC D) {g g' : Graph} (h : GraphReord g g') (hd : GraphDistinctKeys g)
     (n : Nat) : rawId hc g n = rawId hc g' n := by
